@@ -150,6 +150,12 @@ def havoc_like(ip, v, name):
     raise Unsupported('cannot havoc local %s = %r (declare its type in the loop contract)' % (name, v))
 
 
+def calls_since(ip, old, suffix):
+    """calls of the contract whose qualified name ends with `suffix` made since the snapshot `old` (body reading)"""
+    n0 = len(old.ghost.get('calls', []))
+    return [a for q, a in ip.st.ghost.get('calls', [])[n0:] if q.endswith(suffix)]
+
+
 class A:
     """bound arguments with attribute access"""
     def __init__(self, d):
@@ -218,6 +224,9 @@ class Contract:
         st = ip.st
         a = A(bound)
         st.ghost.setdefault('callee_contracts', set()).add(self.qual)
+        # ghost call log: which contracts this path has called, with which arguments (lets a caller's contract say
+        # "the pong is ATTEMPTED exactly once" where the wire alone cannot tell an attempt that failed from none)
+        st.ghost.setdefault('calls', []).append((self.qual, a))
         for f in self.axioms(ip, a):
             st.assume(f)
         for item in self.requires(ip, a):
